@@ -73,18 +73,76 @@ def gerr(rng):
     return rng.choice([0.0, 0.5, 0.1, round(rng.uniform(0.01, 3), 3)])
 
 
+# ARGUMENT TYPES: the same number handed over as another kind of Python object.  Every one of them
+# is a numbers.Real; bools are not generated (not judged).
+NUM_TYPES = ["int", "float", "np.float64", "np.float32", "np.int64", "np.int32", "np.int8",
+             "np.arange", "Fraction"]
+INT_TYPES = ("int", "np.int64", "np.int32", "np.int8", "np.arange")
+
+
+def typed(rng, typ, nonneg=False):
+    """a value that the named type represents exactly (so the model sees the same number)"""
+    if typ in INT_TYPES:
+        v = float(rng.randint(0 if nonneg else -20, 20))
+    elif typ == "np.float32":
+        v = rng.randint(0 if nonneg else -400, 400) / 8            # dyadic: exact in binary32
+    elif typ == "Fraction":
+        v = rng.randint(0 if nonneg else -60, 60) / rng.choice([1, 2, 3, 4, 5, 7, 8])
+    else:
+        v = gerr(rng) if nonneg else gval(rng)
+    return v
+
+
+def pick_type(rng, p=0.55):
+    """None = the plain Python float the first version of this check always passed"""
+    return rng.choice(NUM_TYPES) if rng.random() < p else None
+
+
+def mk_num(b, typ):
+    from fractions import Fraction
+    import numpy as np
+    v = unbits(b)
+    if typ in (None, "float"):
+        return v
+    if typ == "int":
+        return int(v)
+    if typ == "Fraction":
+        return Fraction(v).limit_denominator(1000)
+    if typ == "np.float64":
+        return np.float64(v)
+    if typ == "np.float32":
+        return np.float32(v)
+    if typ == "np.int64":
+        return np.int64(int(v))
+    if typ == "np.int32":
+        return np.int32(int(v))
+    if typ == "np.int8":
+        return np.int8(int(v))
+    if typ == "np.arange":
+        return np.arange(int(v), int(v) + 1)[0]       # an element of an integer array
+    raise ValueError(typ)
+
+
+def mk_index(i, typ):
+    import numpy as np
+    return {"np.int64": np.int64, "np.int32": np.int32, "np.intp": np.intp}.get(typ, int)(i)
+
+
 def gen_item(rng, malformed):
     r = rng.random()
     if malformed and r < 0.12:
         return ["bad"]
     if r < 0.35:
-        return ["num", bits(gval(rng))]
+        t = pick_type(rng, 0.7)
+        return ["num", bits(typed(rng, t) if t else gval(rng))] + ([t] if t else [])
+    tv, te = pick_type(rng), pick_type(rng)
+    v = typed(rng, tv) if tv else gval(rng)
+    e = typed(rng, te, nonneg=True) if te else gerr(rng)
     if r < 0.7:
-        e = gerr(rng)
         if malformed and rng.random() < 0.25:
-            e = -abs(e) - 0.1
-        return ["pair", bits(gval(rng)), bits(e)]
-    return ["meas", bits(gval(rng)), bits(gerr(rng))]
+            e, te = -abs(gerr(rng)) - 0.1, None
+        return ["pair", bits(v), bits(e)] + ([[tv, te]] if tv or te else [])
+    return ["meas", bits(v), bits(e)] + ([[tv, te]] if tv or te else [])
 
 
 def gen_operand(rng, malformed):
@@ -92,7 +150,16 @@ def gen_operand(rng, malformed):
     if r < 0.55:
         return ["one", gen_item(rng, malformed)]
     if r < 0.8:
+        if rng.random() < 0.3:
+            # a numpy array of bare numbers (ARRAY_TYPES): its elements are numpy scalars
+            dt = rng.choice(["int64", "int32", "float32", "float64"])
+            t = {"int64": "np.int64", "int32": "np.int32", "float32": "np.float32", "float64": "float"}[dt]
+            return ["many", [["num", bits(typed(rng, t))] for _ in range(rng.randint(1, 3))], "ndarray:" + dt]
         return ["many", [gen_item(rng, malformed) for _ in range(rng.randint(0 if malformed else 1, 3))]]
+    if rng.random() < 0.4:
+        dt = rng.choice(["int64", "int32", "float32"])
+        t = "np." + dt
+        return ["arr", [[bits(typed(rng, t)), bits(typed(rng, t, nonneg=True))] for _ in range(rng.randint(1, 3))], dt]
     return ["arr", [[bits(gval(rng)), bits(gerr(rng))] for _ in range(rng.randint(1, 3))]]
 
 
@@ -131,6 +198,10 @@ def gen_case(rng, malformed=False, long=False):
     c = {"name": rng.choice(["", "", "len", "x", "t1"]), "unit": rng.choice(["", "m", "m", "kg*m^2/s^2"]),
          "xs": [bits(x) for x in xs], "spec": spec, "init": [[bits(x), bits(e)] for x, e in zip(xs, es)],
          "edits": [], "malformed": malformed}
+    if rng.random() < 0.2 and all(float(x).is_integer() and abs(x) < 1e6 for x in xs):
+        c["data"] = rng.choice(["ndarray:int64", "ndarray:int32", "ints"])
+    elif rng.random() < 0.15:
+        c["data"] = "ndarray:float64"
     ln = n
     for _ in range(rng.randint(1, 40 if long else 15)):
         k = rng.choice(["append", "insert", "delete", "set", "set"])
@@ -144,7 +215,7 @@ def gen_case(rng, malformed=False, long=False):
             if bad_index:
                 i = rng.choice([ln + 1, ln + 3, -ln - 1, -ln - 4])
             x = gen_operand(rng, malformed)
-            c["edits"].append(["insert", i, x])
+            c["edits"].append(["insert", i, x] + index_type(rng))
             if not bad_index:
                 ln += operand_len(x) or 0
         elif k == "delete":
@@ -153,24 +224,122 @@ def gen_case(rng, malformed=False, long=False):
             i = rng.randint(-ln, ln - 1)
             if bad_index:
                 i = rng.choice([ln, ln + 2, -ln - 1])
-            c["edits"].append(["delete", i])
+            c["edits"].append(["delete", i] + index_type(rng))
             if not bad_index:
                 ln -= 1
         else:
             i = rng.randint(-ln, ln - 1)
             if bad_index:
                 i = rng.choice([ln, ln + 2, -ln - 1])
-            c["edits"].append(["set", i, gen_item(rng, malformed)])
+            c["edits"].append(["set", i, gen_item(rng, malformed)] + index_type(rng))
+    if rng.random() < 0.35:
+        # FAULTS: requests that the library must reject, sent to the array or to one of its
+        # elements before an edit; the exception is caught; nothing may have changed
+        c["faults"] = {}
+        for k in rng.sample(range(1, len(c["edits"]) + 1), min(len(c["edits"]), rng.choice([1, 1, 2]))):
+            c["faults"][str(k)] = [gen_fault(rng) for _ in range(rng.choice([1, 1, 2]))]
     return c
 
 
-def fmt_item(it):
+BAD_UNITS = ["m2", "kg*m/s^2)", "m per s", "m^", "(m", "2", " ", "m**2", "kg m"]
+FAULT_KINDS = ["unit", "unit", "unit-type", "name-type", "elem-unit", "elem-value", "elem-error",
+               "ctor-negative", "ctor-data", "append-bad", "set-bad"]
+
+
+def gen_fault(rng):
+    k = rng.choice(FAULT_KINDS)
+    if k == "elem-unit":
+        return [k, rng.randint(-3, 2), rng.choice(BAD_UNITS)]
+    arg = rng.choice(BAD_UNITS) if k == "unit" else rng.randint(-3, 2)
+    return [k, arg]
+
+
+def send_fault(q, a, f):
+    """one request that must be rejected; -> exception class or 'accepted'"""
+    k, arg = f[0], f[1]
+    n = len(a)
+
+    def go():
+        if k == "unit":
+            a.unit = arg
+        elif k == "unit-type":
+            a.unit = 5
+        elif k == "name-type":
+            a.name = 5
+        elif k == "elem-unit":
+            a[arg % n].unit = f[2]
+        elif k == "elem-value":
+            a[arg % n].value = "abc"
+        elif k == "elem-error":
+            a[arg % n].error = -0.5
+        elif k == "ctor-negative":
+            q.MeasurementArray([1.0, 2.0], -0.5)
+        elif k == "ctor-data":
+            q.MeasurementArray("abc")
+        elif k == "append-bad":
+            a.append([(1.0, 0.1), "abc"])
+        elif k == "set-bad":
+            a[arg % n] = (1.0, -0.5)
+        else:
+            raise ValueError(k)
+    st, v = H.call(go)
+    return "accepted" if st == "ok" else v
+
+
+def index_type(rng):
+    """indices that come out of numpy (argmax, arange, len of an array) are numpy integers"""
+    return [rng.choice(["np.int64", "np.int32", "np.intp"])] if rng.random() < 0.25 else []
+
+
+def set_probes(rng):
+    """deliberate: item assignment of a bare number of every numeric type to an element with a
+    non-zero uncertainty, then the aggregates (the uncertainty must be kept)"""
+    out = []
+    for t in NUM_TYPES:
+        n = rng.randint(2, 4)
+        xs = [gval(rng) for _ in range(n)]
+        es = [rng.choice([0.5, 0.1, 0.25]) for _ in range(n)]
+        c = {"name": rng.choice(["", "len"]), "unit": rng.choice(["", "m"]), "xs": [bits(x) for x in xs],
+             "spec": ["each", [bits(e) for e in es]], "init": [[bits(x), bits(e)] for x, e in zip(xs, es)],
+             "edits": [["set", rng.randint(-n, n - 1), ["num", bits(typed(rng, t)), t]],
+                       ["append", ["one", ["num", bits(typed(rng, t)), t]]],
+                       ["insert", rng.randint(-n, n), ["one", ["pair", bits(typed(rng, t)),
+                                                               bits(typed(rng, t, nonneg=True)), [t, t]]]],
+                       ["set", rng.randint(-n, n - 1), ["num", bits(typed(rng, t)), t]]],
+             "malformed": False}
+        out.append(c)
+    return out
+
+
+def fmt_num(b, typ):
+    v = unbits(b)
+    if typ in (None, "float"):
+        return repr(v)
+    if typ == "int":
+        return repr(int(v))
+    if typ == "Fraction":
+        return repr(mk_num(b, typ))
+    if typ == "np.arange":
+        return "np.arange({0}, {0} + 1)[0]".format(int(v))
+    return "{}({!r})".format(typ, int(v) if typ in INT_TYPES else v)
+
+
+def item_types(it):
     if it[0] == "num":
-        return repr(unbits(it[1]))
+        return [it[2] if len(it) > 2 else None]
+    if it[0] in ("pair", "meas"):
+        return list(it[3]) if len(it) > 3 else [None, None]
+    return []
+
+
+def fmt_item(it):
+    ts = item_types(it)
+    if it[0] == "num":
+        return fmt_num(it[1], ts[0])
     if it[0] == "pair":
-        return "({!r}, {!r})".format(unbits(it[1]), unbits(it[2]))
+        return "({}, {})".format(fmt_num(it[1], ts[0]), fmt_num(it[2], ts[1]))
     if it[0] == "meas":
-        return "Measurement({!r}, {!r}, name='own', unit='s')".format(unbits(it[1]), unbits(it[2]))
+        return "Measurement({}, {}, name='own', unit='s')".format(fmt_num(it[1], ts[0]), fmt_num(it[2], ts[1]))
     return "'abc'"
 
 
@@ -178,9 +347,28 @@ def fmt_operand(x):
     if x[0] == "one":
         return fmt_item(x[1])
     if x[0] == "many":
-        return "[" + ", ".join(fmt_item(i) for i in x[1]) + "]"
-    return "MeasurementArray({!r}, {!r}, name='other', unit='s')".format(
-        [unbits(p[0]) for p in x[1]], [unbits(p[1]) for p in x[1]])
+        inner = "[" + ", ".join(fmt_item(i) for i in x[1]) + "]"
+        return "np.array({}, dtype=np.{})".format(inner, x[2].split(":")[1]) if len(x) > 2 else inner
+    dt = ", dtype=np.{}".format(x[2]) if len(x) > 2 else ""
+    return "MeasurementArray(np.array({!r}{}), np.array({!r}{}), name='other', unit='s')".format(
+        [unbits(p[0]) for p in x[1]], dt, [unbits(p[1]) for p in x[1]], dt) if dt else \
+        "MeasurementArray({!r}, {!r}, name='other', unit='s')".format(
+            [unbits(p[0]) for p in x[1]], [unbits(p[1]) for p in x[1]])
+
+
+def fmt_index(e, k):
+    return "{}({})".format(e[k], e[1]) if len(e) > k else str(e[1])
+
+
+def fmt_fault(f):
+    k = f[0]
+    return {"unit": "a.unit = {!r}".format(f[1]), "unit-type": "a.unit = 5", "name-type": "a.name = 5",
+            "elem-unit": "a[{} % len(a)].unit = {!r}".format(f[1], f[2] if len(f) > 2 else ""),
+            "elem-value": "a[{} % len(a)].value = 'abc'".format(f[1]),
+            "elem-error": "a[{} % len(a)].error = -0.5".format(f[1]),
+            "ctor-negative": "MeasurementArray([1.0, 2.0], -0.5)", "ctor-data": "MeasurementArray('abc')",
+            "append-bad": "a.append([(1.0, 0.1), 'abc'])",
+            "set-bad": "a[{} % len(a)] = (1.0, -0.5)".format(f[1])}[k]
 
 
 def describe(c):
@@ -189,46 +377,67 @@ def describe(c):
         k, v = c["spec"]
         kw = {"common": ", {!r}", "each": ", {!r}", "rel": ", relative_error={!r}"}[k].format(
             [unbits(e) for e in v] if k == "each" else unbits(v))
-    s = "a = MeasurementArray({!r}{}{}{})".format(
-        [unbits(x) for x in c["xs"]], kw, ", name={!r}".format(c["name"]) if c["name"] else "",
+    data = repr([unbits(x) for x in c["xs"]])
+    if c.get("data", "").startswith("ndarray"):
+        data = "np.array({!r}, dtype=np.{})".format([unbits(x) for x in c["xs"]], c["data"].split(":")[1])
+    elif c.get("data") == "ints":
+        data = repr([int(unbits(x)) for x in c["xs"]])
+    s = "a = MeasurementArray({}{}{}{})".format(
+        data, kw, ", name={!r}".format(c["name"]) if c["name"] else "",
         ", unit={!r}".format(c["unit"]) if c["unit"] else "")
-    for e in c["edits"]:
+    for k, e in enumerate(c["edits"], 1):
+        for f in c.get("faults", {}).get(str(k), []):
+            s += "; <rejected, caught: {}>".format(fmt_fault(f))
         if e[0] == "append":
             s += "; a = a.append({})".format(fmt_operand(e[1]))
         elif e[0] == "insert":
-            s += "; a = a.insert({}, {})".format(e[1], fmt_operand(e[2]))
+            s += "; a = a.insert({}, {})".format(fmt_index(e, 3), fmt_operand(e[2]))
         elif e[0] == "delete":
-            s += "; a = a.delete({})".format(e[1])
+            s += "; a = a.delete({})".format(fmt_index(e, 2))
         else:
-            s += "; a[{}] = {}".format(e[1], fmt_item(e[2]))
+            s += "; a[{}] = {}".format(fmt_index(e, 3), fmt_item(e[2]))
     return s
 
 
 # ---------------------------------------------------------------- the real library
 def mk_item(q, it):
+    ts = item_types(it)
     if it[0] == "num":
-        return unbits(it[1])
+        return mk_num(it[1], ts[0])
     if it[0] == "pair":
-        return (unbits(it[1]), unbits(it[2]))
+        return (mk_num(it[1], ts[0]), mk_num(it[2], ts[1]))
     if it[0] == "meas":
-        return q.Measurement(unbits(it[1]), unbits(it[2]), name="own", unit="s")
+        return q.Measurement(mk_num(it[1], ts[0]), mk_num(it[2], ts[1]), name="own", unit="s")
     return "abc"
 
 
 def mk_operand(q, x):
+    import numpy as np
     if x[0] == "one":
         return mk_item(q, x[1])
     if x[0] == "many":
+        if len(x) > 2:
+            return np.array([unbits(i[1]) for i in x[1]], dtype=getattr(np, x[2].split(":")[1]))
         return [mk_item(q, i) for i in x[1]]
-    return q.MeasurementArray([unbits(p[0]) for p in x[1]], [unbits(p[1]) for p in x[1]],
-                              name="other", unit="s")
+    vals, errs = [unbits(p[0]) for p in x[1]], [unbits(p[1]) for p in x[1]]
+    if len(x) > 2:
+        vals, errs = np.array(vals, dtype=getattr(np, x[2])), np.array(errs, dtype=getattr(np, x[2]))
+    return q.MeasurementArray(vals, errs, name="other", unit="s")
+
+
+def fl(v):
+    """a stored number as a float; anything else (a fault wrote garbage) as a marked string"""
+    try:
+        return float(v)
+    except Exception:  # noqa: BLE001
+        return "not-a-number:" + repr(v)[:40]
 
 
 def read(a):
     import warnings
     with warnings.catch_warnings():
         warnings.simplefilter("ignore")
-        r = {"len": len(a), "values": [float(v) for v in a.values], "errors": [float(e) for e in a.errors],
+        r = {"len": len(a), "values": [fl(v) for v in a.values], "errors": [fl(x) for x in a.errors],
              "names": [x.name for x in a], "units": [x.unit for x in a], "name": a.name, "unit": a.unit}
         for agg in ("sum", "mean"):
             s, v = H.call(getattr(a, agg))
@@ -253,28 +462,36 @@ def observe(q, c):
         kw["name"] = c["name"]
     if c["unit"]:
         kw["unit"] = c["unit"]
-    st, a = H.call(lambda: q.MeasurementArray([unbits(x) for x in c["xs"]], **kw))
+    data = [unbits(x) for x in c["xs"]]
+    if c.get("data", "").startswith("ndarray"):
+        import numpy as np
+        data = np.array(data, dtype=getattr(np, c["data"].split(":")[1]))
+    elif c.get("data") == "ints":
+        data = [int(x) for x in data]
+    st, a = H.call(lambda: q.MeasurementArray(data, **kw))
     if st != "ok":
         return {"steps": [{"out": "reject", "exc": a}]}
     steps = [{"out": "ok", "arr": read(a)}]
     excs = collections.Counter()
-    for e in c["edits"]:
-        before = {"len": len(a), "values": [float(v) for v in a.values],
-                  "errors": [float(x) for x in a.errors]}
+    flog = []
+    for k, e in enumerate(c["edits"], 1):
+        for f in c.get("faults", {}).get(str(k), []):
+            flog.append([k, f, send_fault(q, a, f)])
+        before = {"len": len(a), "values": [fl(v) for v in a.values], "errors": [fl(x) for x in a.errors]}
         if e[0] == "append":
             st, b = H.call(lambda: a.append(mk_operand(q, e[1])))
         elif e[0] == "insert":
-            st, b = H.call(lambda: a.insert(e[1], mk_operand(q, e[2])))
+            st, b = H.call(lambda: a.insert(mk_index(e[1], e[3] if len(e) > 3 else None),
+                                             mk_operand(q, e[2])))
         elif e[0] == "delete":
-            st, b = H.call(lambda: a.delete(e[1]))
+            st, b = H.call(lambda: a.delete(mk_index(e[1], e[2] if len(e) > 2 else None)))
         else:
             def f():
-                a[e[1]] = mk_item(q, e[2])
+                a[mk_index(e[1], e[3] if len(e) > 3 else None)] = mk_item(q, e[2])
                 return a
             st, b = H.call(f)
         step = {"out": st}
-        after = {"len": len(a), "values": [float(v) for v in a.values],
-                 "errors": [float(x) for x in a.errors]}
+        after = {"len": len(a), "values": [fl(v) for v in a.values], "errors": [fl(x) for x in a.errors]}
         if e[0] != "set" or st != "ok":
             step["source_before"], step["source_after"] = before, after
         if st == "ok":
@@ -284,7 +501,7 @@ def observe(q, c):
             excs[b] += 1
         step["arr"] = read(a)
         steps.append(step)
-    return {"steps": steps, "exceptions": dict(excs)}
+    return {"steps": steps, "exceptions": dict(excs), "faults": flog}
 
 
 def model_line(c):
@@ -297,8 +514,16 @@ def same_f(a, b):
     return a == b or (isinstance(a, float) and isinstance(b, float) and math.isnan(a) and math.isnan(b))
 
 
+def fault_accepted(o):
+    """a request meant to be rejected was accepted: the history is not judged by C17 (whether an
+    invalid unit string / a negative uncertainty is rejected is C12's / C14's statement)"""
+    return any(out == "accepted" for _, _, out in o.get("faults", []))
+
+
 def compare(c, o, m):
     inp = describe(c)
+    if fault_accepted(o):
+        return []
     if "fail" in m:
         return [{"signature": "c17:model-error", "kind": "disagreement", "what": "model driver: " +
                  m["fail"], "input": inp, "case": c}]
@@ -310,7 +535,7 @@ def compare(c, o, m):
         opk = ""
         if i:
             e = c["edits"][i - 1]
-            x = e[-1] if kind != "delete" else None
+            x = (e[1] if kind == "append" else e[2]) if kind != "delete" else None
             opk = ":" + (x[0] + ("-" + x[1][0] if x[0] == "one" else "") if kind in ("append", "insert")
                          else x[0] if kind == "set" else "")
             idx = e[1] if kind in ("insert", "delete", "set") else None
@@ -380,7 +605,7 @@ def compare(c, o, m):
 
 def list_reference(c, o):
     """independent oracle: the same edits on a Python list of (value, error) pairs"""
-    if o["steps"][0]["out"] != "ok":
+    if o["steps"][0]["out"] != "ok" or fault_accepted(o):
         return []
     cur = [(unbits(p[0]), unbits(p[1])) for p in c["init"]]
     inp = describe(c)
@@ -487,10 +712,12 @@ def run_cases(ctx, cases, ref=False, with_model=True):
         d["named" if c["name"] else "unnamed"] += 1
         d["unit" if c["unit"] else "no-unit"] += 1
         d["init-errors:" + (c["spec"][0] if c["spec"] else "none")] += 1
+        if c.get("data"):
+            d["init-data:" + c["data"]] += 1
         kinds = collections.Counter()
         for e, st in zip(c["edits"], o["steps"][1:]):
             tag = e[0]
-            x = e[-1] if e[0] != "delete" else None
+            x = (e[1] if e[0] == "append" else e[2]) if e[0] != "delete" else None
             if e[0] in ("append", "insert"):
                 tag += ":" + (x[0] + ("-" + x[1][0] if x[0] == "one" else ""))
             elif e[0] == "set":
@@ -498,10 +725,25 @@ def run_cases(ctx, cases, ref=False, with_model=True):
             if e[0] != "append" and e[1] < 0:
                 tag += ":neg-index"
             d["edit:{}:{}".format(tag, st["out"])] += 1
+            its = [] if x is None else [x] if e[0] == "set" else [x[1]] if x[0] == "one" else \
+                x[1] if x[0] == "many" and len(x) < 3 else []
+            for it in its:
+                for t in item_types(it):
+                    if t:
+                        d["argtype:{}:{}:{}".format(e[0], it[0], t)] += 1
+            if x is not None and x[0] in ("many", "arr") and len(x) > 2:
+                d["argtype:{}:{}:{}".format(e[0], x[0], x[2])] += 1
+            ityp = e[3] if e[0] in ("set", "insert") and len(e) > 3 else e[2] if e[0] == "delete" and len(e) > 2 else None
+            if ityp:
+                d["indextype:{}:{}".format(e[0], ityp)] += 1
             if st["out"] == "ok":
                 kinds[e[0]] += 1
         for k, v in o.get("exceptions", {}).items():
             d["exception:" + k] += v
+        for _, f, out in o.get("faults", []):
+            d["fault:{}:{}".format(f[0], out)] += 1
+        if fault_accepted(o):
+            d["not-judged:fault-accepted"] += 1
         if sum(kinds.values()) >= 3 and len(kinds) >= 2:
             res["nontrivial"].add(canon_hash(c))
         if len(res["samples"]) < 5 and len(c["edits"]) <= 4 and o["steps"][0]["out"] == "ok":
@@ -511,8 +753,8 @@ def run_cases(ctx, cases, ref=False, with_model=True):
 
 
 def chunk(sub, n):
-    return run_cases(sub, [gen_case(sub.rng, malformed=(i % 4 == 3), long=not sub.quick and i % 2 == 0)
-                           for i in range(n)])
+    return run_cases(sub, set_probes(sub.rng) + [
+        gen_case(sub.rng, malformed=(i % 4 == 3), long=not sub.quick and i % 2 == 0) for i in range(n)])
 
 
 def correspond(ctx):
@@ -520,7 +762,7 @@ def correspond(ctx):
 
 
 def search_chunk(sub, n):
-    return run_cases(sub, [gen_case(sub.rng, malformed=(i % 3 == 2)) for i in range(n)],
+    return run_cases(sub, set_probes(sub.rng) + [gen_case(sub.rng, malformed=(i % 3 == 2)) for i in range(n)],
                      with_model=False)
 
 
